@@ -224,6 +224,39 @@ func c4Kind(wt input.WitnessType) int {
 }
 
 // justice punishes height h of cheater from victim's persisted state.
+// c4Store is the breach arbitrator's own retribution store (bolt): every
+// retribution is written to it and the justice transactions are built from
+// what ForAll reads back - "using only what the node has persisted", i.e. the
+// path taken when the node restarts between the hand-over from the chain
+// watcher and the sweep.
+var c4Store *RetributionStore
+
+func c4Persisted(ri *retributionInfo) (*retributionInfo, error) {
+	if c4Store == nil {
+		return ri, nil
+	}
+	if err := c4Store.Add(ri); err != nil {
+		return nil, fmt.Errorf("RetributionStore.Add: %w", err)
+	}
+	var loaded *retributionInfo
+	err := c4Store.ForAll(func(r *retributionInfo) error {
+		if r.chanPoint == ri.chanPoint {
+			loaded = r
+		}
+		return nil
+	}, func() { loaded = nil })
+	if err != nil {
+		return nil, fmt.Errorf("RetributionStore.ForAll: %w", err)
+	}
+	if loaded == nil {
+		return nil, errors.New("RetributionStore.ForAll: stored retribution not found")
+	}
+	if err := c4Store.Remove(&ri.chanPoint); err != nil {
+		return nil, fmt.Errorf("RetributionStore.Remove: %w", err)
+	}
+	return loaded, nil
+}
+
 func c4Punish(victim, cheater *c4Side, h uint64, withTx bool, noAmt bool, thaw uint32) c4Justice {
 	ln := c4Justice{c4Ev: c4Ev{A: "Justice", P: victim.name, X: int(h)}, Ins: []c4In{}, SL: []c4SL{}, BSL: []c4SL{},
 		Hint: -1, OurIdx: -1, TheirIdx: -1, OurAmtLog: -1, TheirAmtLog: -1}
@@ -314,7 +347,11 @@ func c4Punish(victim, cheater *c4Side, h uint64, withTx bool, noAmt bool, thaw u
 		},
 		Signer: victim.lc.Signer,
 	})
-	ri := newRetributionInfo(&vstate.FundingOutpoint, ret)
+	ri, err := c4Persisted(newRetributionInfo(&vstate.FundingOutpoint, ret))
+	if err != nil {
+		ln.Err = err.Error()
+		return ln
+	}
 	txs, err := brar.createJusticeTx(ri.breachedOutputs)
 	if err != nil || txs.spendAll == nil {
 		ln.Err = fmt.Sprintf("createJusticeTx: %v", err)
@@ -408,7 +445,11 @@ func c4Punish(victim, cheater *c4Side, h uint64, withTx bool, noAmt bool, thaw u
 		return ln
 	}
 	ln.SL2 = 1
-	ri2 := newRetributionInfo(&vstate.FundingOutpoint, ret2)
+	ri2, err := c4Persisted(newRetributionInfo(&vstate.FundingOutpoint, ret2))
+	if err != nil {
+		note("retribution store", err)
+		return ln
+	}
 	spent := map[wire.OutPoint]*wire.MsgTx{} // second-level outpoint -> the tx that created it
 	for i := range ri2.breachedOutputs {
 		bo := &ri2.breachedOutputs[i]
@@ -490,7 +531,11 @@ func c4Punish(victim, cheater *c4Side, h uint64, withTx bool, noAmt bool, thaw u
 	if err != nil {
 		return ln
 	}
-	ri3 := newRetributionInfo(&vstate.FundingOutpoint, ret3)
+	ri3, err := c4Persisted(newRetributionInfo(&vstate.FundingOutpoint, ret3))
+	if err != nil {
+		note("retribution store", err)
+		return ln
+	}
 	var order []int
 	for i := len(ri3.breachedOutputs) - 1; i >= 0; i-- { // not in commitment order
 		bo := &ri3.breachedOutputs[i]
@@ -609,6 +654,11 @@ func c4Watch(victim, cheater *c4Side, w *chainWatcher, got *[]*lnwallet.BreachRe
 
 func TestVerifC04Justice(t *testing.T) {
 	lnwallet.VerifSetTestChannelCapacity(0.01)
+	rsdb, err := channeldb.MakeTestDB(t)
+	if err != nil {
+		t.Fatal(err)
+	}
+	c4Store = NewRetributionStore(rsdb)
 
 	dir := os.Getenv("VERIF_SCHED")
 	files := verifkit.ListFiles(dir, "b_", ".ndjson")
@@ -671,6 +721,7 @@ func TestVerifC04Justice(t *testing.T) {
 		pres := map[string][32]byte{} // "<offerer>/<htlc id>" -> preimage
 		lastPre := map[string][32]byte{}
 		lastExp := map[string]uint32{}
+		ndup := 0
 		npre := 0
 
 		out.Emit(c4Line{c4Ev: c4Ev{A: "Reset", P: "A"}, Type: tname, Opener: opener, File: filepath.Base(f),
@@ -698,7 +749,13 @@ func TestVerifC04Justice(t *testing.T) {
 				var expiry uint32
 				key := fmt.Sprintf("%s/%d", e.P, e.X)
 				if lp, ok := lastPre[key]; ok && e.Y == 1 {
+					// equal-hash duplicate: alternately fully identical and with
+					// a different CLTV expiry (shards sent at different heights)
 					pre, expiry = lp, lastExp[key]
+					ndup++
+					if ndup%2 == 1 {
+						expiry += 9
+					}
 				} else {
 					npre++
 					pre[0], pre[1], pre[2] = byte(npre), byte(npre>>8), 0x5a
